@@ -138,7 +138,7 @@ def _isolable(unit, lines, diags):
     from . import rustscan
     idx = set()
     for d in diags:
-        if d.get('level') != 'error' or _classify(d.get('message', '')) != 'other':
+        if d.get('level') != 'error' or (_classify(d.get('message', '')) != 'other' and not d.get('code')):
             continue
         sps = [sp for sp in d.get('spans', []) if sp.get('is_primary')]
         if not sps:
@@ -263,6 +263,8 @@ def _run_unit(unit_path, kf_on, vacuity, extra_args, timeout, keep, seed, isolat
             f.message = d.get('message', '')
             f.rendered = d.get('rendered', '')
             f.kind = _classify(f.message)
+            if d.get('code'):
+                f.kind = 'other'     # a rustc error (E…): the woven file does not compile — never a verification failure
             spans = d.get('spans', [])
             for ch in d.get('children', []):
                 spans = spans + ch.get('spans', [])
